@@ -155,7 +155,7 @@ pub fn run_case(c: &Case, o: &SrvOpts) -> Case {
     let mut r = Runner::new(o);
     let mut out = Case { id: c.id.clone(), ops: vec![], outs: vec![] };
     for op in &c.ops { let (o2, res) = r.op(op); out.ops.push(o2); out.outs.push(res); }
-    let drift = r.drift_bad;
+    let drift = r.drift_bad && c.ops.iter().any(|o| matches!(o.first(), Some(Tok::B(n)) if n == b"SLEEP"));
     let alive = r.finish();
     if !alive { out.ops.push(vec![b("ALIVE")]); out.outs.push(vec![i(0)]); }
     if drift { out.id = format!("{}-DISCARD", out.id); }
